@@ -183,11 +183,11 @@ def check(col, prog, tier, profile, fixture=None):
                     if pl[0] == "local":
                         ty = b.locals[pl[1]]["ty"]
                         if ty.startswith("[u8;"):
-                            bound = int(ty.split(";")[1].strip(" ]"))
+                            bound = _array_len(ty, b, crate)
                     elif pl[0] == "range" and pl[1][0] == "local":
                         ty = b.locals[pl[1][1]]["ty"]
                         if ty.startswith("[u8;"):
-                            bound = int(ty.split(";")[1].strip(" ]"))
+                            bound = _array_len(ty, b, crate)
                     elif pl[0] == "constval" and pl[1][0] == "agg":
                         bound = len(pl[1][2])
                     elif pl[0] == "constval" and pl[1][0] in ("repeat",):
@@ -353,7 +353,7 @@ def check(col, prog, tier, profile, fixture=None):
             continue
         sty = imp["self_ty"]
         if sty.startswith("("):
-            I = util.analyse(b)
+            I = A(b)   # (private Writer helpers such as a `write_separator` are judged inlined)
             arity = len([x for x in sty.strip("()").split(",") if x.strip()])
             for st in I.final_states:
                 seq = []
@@ -366,7 +366,10 @@ def check(col, prog, tier, profile, fixture=None):
                                 fld = s[2]
                         seq.append(("W", fld))
                     elif _is(e, wc):
-                        seq.append(("S", e.args[1]))
+                        sv = e.args[1]
+                        if isinstance(sv, tuple) and sv and sv[0] == "assoc" and _assoc_value(crate, sv) is not None:
+                            sv = mk_int(_assoc_value(crate, sv))   # a named constant for the separator
+                        seq.append(("S", sv))
                 want = []
                 for i in range(arity):
                     if i:
@@ -582,6 +585,22 @@ def _out_macros(col, sfx, fixture):
                 col.violation("V9", key, "rlib/io/src/output_macro.rs", "%s!(%d argument(s)) expands to the call sequence %s; expected the arguments in order, one ' ' between neighbours%s" % ("outln" if nl else "out", nargs, got, " and one trailing newline" if nl else ""))
     finally:
         wp.cleanup()
+
+
+def _array_len(ty, b, crate):
+    """length of `[u8; K]`: a literal, or for a const-generic helper (`fn write_digits<const N: usize>`) the largest value it
+    is instantiated with anywhere in the crate"""
+    k = ty.split(";")[1].strip(" ]")
+    if k.isdigit():
+        return int(k)
+    vals = []
+    for m in crate.bodies:
+        for _bb, t in m.calls():
+            fn = t["fn"].get("resolved") or t["fn"]
+            if fn.get("def") == b.key or t["fn"].get("def") == b.key:
+                vals += [int(x) for x in (t["fn"].get("args") or []) if str(x).isdigit()]
+                vals += [int(x) for x in ((t["fn"].get("resolved") or {}).get("args") or []) if str(x).isdigit()]
+    return max(vals) if vals else None
 
 
 def _single_byte_append(b, inl, BUF, END, cap):
@@ -827,6 +846,11 @@ def _digits(col, crate, base10, wb, wc, wr, sfx):
                     if f[0] == "eq" and isinstance(t, tuple) and t[0] == "bin" and t[1] == "Lt" and t[3] in (("ref", ("constval", mk_int(0))), mk_int(0)):
                         isneg = bool(f[2])
                     if f[0] == "eq" and isinstance(t, tuple) and t[0] == "bin" and t[1] == "Ge" and t[3] in (("ref", ("constval", mk_int(0))), mk_int(0)):
+                        isneg = not bool(f[2])
+                    # the same tests written from the other side: 0 > x, 0 <= x
+                    if f[0] == "eq" and isinstance(t, tuple) and t[0] == "bin" and t[1] == "Gt" and t[2] in (("ref", ("constval", mk_int(0))), mk_int(0)):
+                        isneg = bool(f[2])
+                    if f[0] == "eq" and isinstance(t, tuple) and t[0] == "bin" and t[1] == "Le" and t[2] in (("ref", ("constval", mk_int(0))), mk_int(0)):
                         isneg = not bool(f[2])
                     if f[0] == "eq" and isinstance(t, tuple) and t[0] == "call" and str(t[1]).endswith("::is_negative"):
                         isneg = bool(f[2])
